@@ -16,6 +16,21 @@ def supported (q : MetricQuery) : Bool :=
    | some a => (chosenGrouping a.byPrefix a.bySuffix).isSome && a.fn != .stddev && a.fn != .stdvar) &&
   decide (q.rangeAgg.durNs % 1000000 = 0) && decide (0 < q.rangeAgg.durNs) && decide (q.rangeAgg.sel.matchers.length ≤ 63)
 
+/-- the unwrapped range aggregations the plan-level theorem `plan_metric_correct_unwrap` covers: rate / sum / avg / min /
+    max / first / last_over_time over `| unwrap <label>` (with or without grouping clause), same side conditions -/
+def supportedU (q : MetricQuery) : Bool :=
+  (match q.rangeAgg.kind with
+   | .unwrap fn _ => fn != UnwrapFn.stdvarOT && fn != UnwrapFn.stddevOT
+   | .lra _ => false) &&
+  (match q.agg? with
+   | none => true
+   | some a => (chosenGrouping a.byPrefix a.bySuffix).isSome && a.fn != .stddev && a.fn != .stdvar) &&
+  decide (q.rangeAgg.durNs % 1000000 = 0) && decide (0 < q.rangeAgg.durNs) && decide (q.rangeAgg.sel.matchers.length ≤ 63)
+
+/-- the database with the `samples` table read in timestamp order (ascending when the request is forward): the plan of
+    an unwrapped range aggregation orders `main` by timestamp before it joins the labels and groups -/
+def sortedDb (c : Ctx) (d : LokiDb) : LokiDb := { d with samples := sortBy (tsLe c) d.samples }
+
 /-- what the metrics_15s shortcut relies on (executable form): no negative timestamp, and the line filters it does not
     plan pass every stored line -/
 def shortcutOkB (o : Oracles) (d : LokiDb) (q : MetricQuery) : Bool :=
@@ -47,6 +62,8 @@ def planClass (o : Oracles) (c : MCtx) (d : LokiDb) (q : MetricQuery) : String :
   let path := if takesShortcut q then "metrics_15s" else "samples"
   if supported q && (!takesShortcut q || shortcutOkB o d q) then
     s!"proved:{path}:{shapeName q}"
+  else if supportedU q then
+    s!"proved-in-timestamp-order:samples:{shapeName q}"
   else
     let why :=
       match q.rangeAgg.kind with
